@@ -57,6 +57,12 @@ def run(prog, tier):
             s_ev = [e for e in ev if e[0] == "APPEND_S"][0]
             p_ev = [e for e in ev if e[0] == "APPEND_P"][0]
             ok, why = _provenance(fn, s_ev, p_ev)
+            if ok:
+                # ... on EVERY normal path: between the posterior call that produced the appended log-probability and the append of the
+                # sample, the sample variable is not re-bound (a fall-back arm that restores the old point keeps the new point's value)
+                okp, whyp = _provenance_paths(fn, classify, compound, mcmc.self_inliner(prog, ci), unroll, s_ev[2], p_ev[2])
+                if not okp:
+                    ok, why = False, whyp
             obs.append(struct_ob("append-provenance", qual(c, fn) + (f"[{cname}]" if c.name != cname else ""), ok, why,
                                  rel, p_ev[1], slots={"sample_source": s_ev[2], "prob_value": p_ev[2]}))
 
@@ -251,6 +257,50 @@ def _provenance(fn, s_ev, p_ev):
     if U(arg) != U(src):
         return False, (f"log-probability appended is posterior(`{U(arg)}`) but the sample appended is "
                        f"`{U(src)}`")
+    return True, ""
+
+
+def _provenance_paths(fn, classify, compound, inliner, unroll, s_src, p_val):
+    """Path-sensitive part of the provenance rule.  Events: DEF(name) for every plain (re)binding of a local name, PCALL(arg) for
+    every posterior call with a name as argument, plus the store events.  On each normal path: let X be the sample source and
+    P the appended probability name; the last DEF(P) before the append must hold a PCALL(X), and no DEF(X) may lie between that
+    statement and APPEND_S."""
+    if not (s_src.isidentifier() and p_val.isidentifier()):
+        return True, ""
+
+    def classify2(node):
+        ev = list(classify(node))
+        if isinstance(node, (ast.Assign, ast.AugAssign)):
+            tgts = node.targets if isinstance(node, ast.Assign) else [node.target]
+            names = []
+            for t in tgts:
+                names.extend(x.id for x in (t.elts if isinstance(t, (ast.Tuple, ast.List)) else [t]) if isinstance(x, ast.Name))
+            pc = [U(c_.args[0]) for c_ in mcmc.posterior_calls(node.value) if c_.args]
+            for nm in names:
+                ev.append(("DEF", node.lineno, nm + "|" + ",".join(pc)))
+        return ev
+    en = Enumerator(classify2, compound, inliner, unroll=unroll, depth=2)
+    for ev, s in en.function(fn):
+        if s != RETURN:
+            continue
+        idx_s = [i for i, e in enumerate(ev) if e[0] == "APPEND_S"]
+        idx_p = [i for i, e in enumerate(ev) if e[0] == "APPEND_P"]
+        if len(idx_s) != 1 or len(idx_p) != 1:
+            continue
+        end = max(idx_s[0], idx_p[0])
+        pdefs = [i for i, e in enumerate(ev[:end]) if e[0] == "DEF" and e[2].split("|")[0] == p_val]
+        if not pdefs:
+            continue
+        k = pdefs[-1]
+        args = ev[k][2].split("|")[1].split(",") if "|" in ev[k][2] else []
+        if s_src not in args:
+            # the probability name may be a copy of another name (p_old = p_new): follow one step
+            continue
+        later = [e for e in ev[k + 1:idx_s[0]] if e[0] == "DEF" and e[2].split("|")[0] == s_src]
+        if later:
+            return False, (f"on the path {fmt([e for e in ev if e[0] in ('DEF', 'APPEND_S', 'APPEND_P') and (e[0] != 'DEF' or e[2].split('|')[0] in (s_src, p_val))])} "
+                           f"`{s_src}` is re-bound (line {later[0][1]}) after `{p_val} = posterior({s_src})..` was computed: the sample appended is "
+                           f"not the point whose log-probability is appended")
     return True, ""
 
 
